@@ -185,6 +185,16 @@ def parser_arms(F, it, enum_path):
                 rv = s["rv"]
                 if rv["k"] == "agg" and rv.get("adt") == enum_path and cfg.dominates(tb, bi):
                     out[rule] = rv["variant"]
+            # the variant's constructor handed over as a function value: `helper(pair).map(Self::From)`
+            for bi, t2 in mir.calls(f):
+                if not cfg.dominates(tb, bi):
+                    continue
+                for a in t2["args"]:
+                    c_ = mir.op_const(a)
+                    if c_ and "fn" in c_ and (c_.get("fn_resolved") or c_["fn"]).startswith(enum_path + "::"):
+                        v = (c_.get("fn_resolved") or c_["fn"])[len(enum_path) + 2:]
+                        if "::" not in v:
+                            out[rule] = v
     return out
 
 
